@@ -113,7 +113,7 @@ def _evaluate_flavor(case):
         routes.append("to_uni_evol")
     for side, (src, tgt) in SIDES.items():
         for route in routes:
-            sig = f"{route}/family={fam}/side={side}"
+            sig = f"{route}/side={side}"  # the family is named in the message
             where = f"family={fam} side={side} route={route} n={n} error={with_err} op={opkind} via_eko={via}"
             try:
                 with warnings.catch_warnings():
@@ -158,31 +158,31 @@ def _evaluate_flavor(case):
 # ------------------------------------------------------------------------------------------------
 # grid re-interpolation
 # ------------------------------------------------------------------------------------------------
-def target_kinds(g):
-    n = len(g)
+def target_kinds(g, is_log):
+    foreign = G.geometric if is_log else G.linear  # a foreign grid natural for the interpolation mode
     out = {
         "same": list(g),
         "nodes-1ulp": [G.ulp_up(x) for x in g[:-1]] + [G.ulp_down(g[-1])],
         "midpoints": [(a * b) ** 0.5 for a, b in zip(g, g[1:])],
         "shifted": [a ** 0.7 * b ** 0.3 for a, b in zip(g, g[1:])] + [g[-1]],
         "refined": sorted(set(list(g) + [(a * b) ** 0.5 for a, b in zip(g, g[1:])])),
-        "foreign-7": G.geometric(7, g[0]),
+        "foreign-7": foreign(7, g[0]),
     }
     if g[0] < SMALL_X:
         t = list(g)
         t[0] = min(2.0 * g[0], (g[0] * g[1]) ** 0.5)
         out["small-x"] = t
-    del n
     return out
 
 
-def input_kinds(g, degree):
+def input_kinds(g, degree, is_log):
+    foreign = G.geometric if is_log else G.linear
     out = {
         "same": list(g),
         "nodes-1ulp": [G.ulp_down(g[0])] + [G.ulp_up(x) for x in g[1:-1]] + [g[-1]],
         "shifted": [g[0]] + [a ** 0.3 * b ** 0.7 for a, b in zip(g, g[1:-1])] + [g[-1]],
         "refined": sorted(set(list(g) + [(a * b) ** 0.5 for a, b in zip(g, g[1:])])),
-        "foreign": G.geometric(len(g) + 2, g[0]),
+        "foreign": foreign(len(g) + 2, g[0]),
     }
     if g[0] < SMALL_X:
         t = list(g)
@@ -231,14 +231,16 @@ def _evaluate_xgrid(case):
         else:
             elem, xg, deg = Operator(O.copy(), err.copy()), interpolation.XGrid(list(g), log=is_log), d
         condX = G.MonomialCond(g, is_log, d)
-        tk, ik = target_kinds(g), input_kinds(g, d)
+        tk, ik = target_kinds(g, is_log), input_kinds(g, d, is_log)
         combos = [(t, None) for t in tk] + [(None, i) for i in ik] + [(t, i) for t, i in PAIRS_BOTH if t in tk and i in ik]
         for tname, iname in combos:
             Y = tk[tname] if tname else None
             Z = ik[iname] if iname else None
             side = "target" if Z is None else ("input" if Y is None else "both")
-            fam = lambda nm: None if nm is None else ("near-nodes" if nm == "small-x" else nm)  # noqa: E731
-            sig = f"xgrid_reshape/{side}/target={fam(tname)}/input={fam(iname)}/log={is_log}"
+            # one signature per (defect class, mode): grids that differ from the operator grid only at very
+            # small x form their own class, whichever side they are used on
+            near = "small-x" in (tname, iname)
+            sig = f"xgrid_reshape/{'near-nodes-grid' if near else side}/log={is_log}"
             where = f"log={is_log} shape={shape} xmin={xmin} n={n} degree={d} target={tname} input={iname} via_eko={via}"
             try:
                 with warnings.catch_warnings(record=True) as wlist:
